@@ -209,7 +209,12 @@ class Fn:
 
 
 PAIRS = {"neg": ((lambda u: -u), (lambda u: -u)), "double": ((lambda u: 2 * u), (lambda u: u / 2)),
-         "square": ((lambda u: u ** 2), (lambda u: np.sqrt(u))), "cube": ((lambda u: u ** 3), (lambda u: np.cbrt(u)))}
+         "square": ((lambda u: u ** 2), (lambda u: np.sqrt(u))), "cube": ((lambda u: u ** 3), (lambda u: np.cbrt(u))),
+         # invertible, piecewise linear with dyadic slopes (exact in doubles), and exactly a translation / the identity on the points 1..5
+         # that the library probes: a translation must not be *inferred* from those points
+         "kink2": ((lambda u: np.where(u <= 10, u + 2, 2 * u - 8)), (lambda v: np.where(v <= 12, v - 2, (v + 8) / 2))),
+         "kinkid": ((lambda u: np.where(u <= 6, u, 2 * u - 6)), (lambda v: np.where(v <= 6, v, (v + 6) / 2))),
+         "neghalf": ((lambda u: np.where(u >= 0, u, u / 2)), (lambda v: np.where(v >= 0, v, 2 * v)))}
 
 
 class TwoSample(Fn):
@@ -223,15 +228,19 @@ class TwoSample(Fn):
         kind = rng.choice(["ints", "ties", "binary", "halves"])
         x, y = small_values(rng, nx, kind), small_values(rng, ny, kind)
         stat = rng.choice(["mean", "t", "callable", "callable"])
-        if stat == "t" and (nx + ny < 3 or len(set(x + y)) < 2):
+        if stat == "t" and (nx + ny < 3 or len(set(x + y)) < 2) and rng.random() < 0.6:
             stat = "mean"
+        elif stat == "t" and rng.random() < 0.12:
+            x, y = [1.0] * nx, [0.0] * ny      # perfectly separated constant samples: t = +inf, and some re-allocations reproduce it
         p = {"x": x, "y": y, "reps": pick_reps(rng), "alt": rng.choice(ALTS), "plus1": rng.random() < 0.5,
              "keep": rng.random() < 0.5, "stat": stat, "wx": weights(rng, nx), "wy": weights(rng, ny)}
         if self.shift:
             p["shift"] = rng.choice([0, 2, -3, 0.5, -1.5, 7, 1000])
             p["pair"] = rng.random() < 0.3
             if rng.random() < 0.3:     # invertible pairs that are not translations
-                p["pairkind"] = rng.choice(["neg", "double", "square", "cube"])
+                p["pairkind"] = rng.choice(["neg", "double", "square", "cube", "kink2", "kinkid", "neghalf"])
+                if p["pairkind"] in ("kink2", "kinkid", "neghalf"):      # data on both sides of the kink
+                    p["x"] = [float(rng.randint(-8, 24)) for _ in p["x"]]; p["y"] = [rng.randint(-16, 40) / 2 for _ in p["y"]]
                 if p["pairkind"] == "square":   # non-negative data whose square roots are exact
                     p["x"] = [float(rng.choice([0, 1, 4, 9, 16, 25])) for _ in p["x"]]
                     p["y"] = [float(rng.choice([0, 1, 2, 3, 4, 5])) for _ in p["y"]]
@@ -347,7 +356,9 @@ class TwoSample(Fn):
             c0_, c1_ = self.table(p)
             tab0 = [F(v) for v in c0_]; tab1 = [F(v) for v in c1_]
             if t_degenerate(margs + [(tab0[:len(p["x"])], tab1[len(p["x"]):])]):
-                return ["SKIP-nonfinite"]
+                obs_pair = (tab0[:len(p["x"])], tab1[len(p["x"]):])
+                return probs + t_ext_compare(res, margs, obs_pair, p["alt"], c, reps,
+                                             obs_same=[(list(a[0]), list(a[1])) == (list(obs_pair[0]), list(obs_pair[1])) for a in margs]) + ["DEGENERATE-T"]
             key = lambda t: (1 if t >= 0 else -1) * float(t) ** 2
             if not close(key(res["obs"]), mobs, rel=1e-7, ab=1e-9):
                 probs.append(f"observed t statistic {float(res['obs'])}: sign·t² = {key(res['obs'])} != {float(mobs)}")
@@ -357,14 +368,63 @@ class TwoSample(Fn):
         return probs
 
 
-def bracket_check(pval, alt, c, reps, mdist, mobs, margs=None, obs_args=None, tol=Fr(1, 10**9), floor=Fr(0)):
+T_INF = Fr(10**40)      # stands for an infinite t statistic in the extended comparison below
+
+
+def t_ext(u, v):
+    """Student's pooled-variance t of two samples as SciPy returns it, in extended reals, re-coded as sign * t^2:
+    None for NaN (a sample empty, fewer than 3 values in all, or no spread and equal means), +-T_INF for +-inf (no spread, different means)"""
+    n, m = len(u), len(v)
+    if n == 0 or m == 0 or n + m < 3:
+        return None
+    mu, mv = sum(u) / n, sum(v) / m
+    ss = sum((t - mu) ** 2 for t in u) + sum((t - mv) ** 2 for t in v)
+    d = mu - mv
+    if ss == 0:
+        return None if d == 0 else (T_INF if d > 0 else -T_INF)
+    den = ss / (n + m - 2) * (Fr(1, n) + Fr(1, m))
+    return (1 if d >= 0 else -1) * d * d / den
+
+
+def t_ext_compare(res, pairs_sim, pair_obs, alt, c, reps, obs_same=None):
+    """degenerate two-sample t statistics (infinite or NaN for some rearrangement): the returned statistic, dist and p-value against
+    the extended-real evaluation — infinities are ordered and tie exactly with each other, NaN is counted in neither tail"""
+    probs = []
+    eo = t_ext(*pair_obs); es = [t_ext(*pr) for pr in pairs_sim]
+    def match(x, e):
+        x = float(x)
+        if e is None:
+            return x != x
+        if abs(e) == T_INF:
+            return x == (float("inf") if e > 0 else float("-inf"))
+        return x == x and abs(x) != float("inf") and close((1 if x >= 0 else -1) * x * x, e, rel=1e-7, ab=1e-9)
+    if not match(res["obs"], eo):
+        probs.append(f"observed t statistic {float(res['obs'])} is not the pooled-variance t in extended reals ({'nan' if eo is None else float(eo)} as sign*t^2)")
+    if res["dist"] is not None and not (len(res["dist"]) == reps and all(match(a, e) for a, e in zip(res["dist"], es))):
+        probs.append("returned dist (t statistics, some infinite / NaN) differs from the extended-real evaluation")
+    if eo is None:
+        want = {"greater": Fr(c, reps + c), "less": Fr(c, reps + c), "two-sided": min(Fr(1), 2 * Fr(c, reps + c))}[alt]
+        if not close(res["p"], want, rel=1e-12):
+            probs.append(f"NaN observed statistic: p-value {float(res['p'])} != {want} (nothing is at least as extreme as NaN)")
+    else:
+        fin = [(e, i) for i, e in enumerate(es) if e is not None]
+        probs += bracket_check(res["p"], alt, c, reps, [e for e, _ in fin], eo,
+                               [("same",) if (obs_same is not None and obs_same[i]) else ("other", i) for _, i in fin], ("same",), floor=Fr(1, 10**9), exact_at=T_INF)
+    return probs
+
+
+def bracket_check(pval, alt, c, reps, mdist, mobs, margs=None, obs_args=None, tol=Fr(1, 10**9), floor=Fr(0), exact_at=None):
     """F2: the implementation's p-value must be consistent with the exact three-way classification of
     every simulated value against the observed one, ties (exact or within 1e-9) going either way unless
     the rearranged arrays are identical to the observed ones"""
     gt = lt = eq = eqid = 0
     floor = floor + Fr(SLACK)
     for i, v in enumerate(mdist):
-        if abs(v - mobs) <= tol * max(abs(v), abs(mobs)) + floor:
+        if exact_at is not None and abs(mobs) == exact_at and v == mobs:
+            eq += 1; eqid += 1          # infinities tie exactly (inf == inf in doubles): must be counted in both tails
+        elif exact_at is not None and (abs(v) == exact_at or abs(mobs) == exact_at):
+            gt, lt = (gt + 1, lt) if v > mobs else (gt, lt + 1)
+        elif abs(v - mobs) <= tol * max(abs(v), abs(mobs)) + floor:
             eq += 1
             if margs is not None and obs_args is not None and margs[i] == obs_args:
                 eqid += 1
@@ -820,8 +880,10 @@ class StratTwoSample(Fn):
         n = len(group)
         stat = rng.choice(["mean", "t", "callable", "callable", "mean_within_strata"])
         resp = small_values(rng, n)
-        if stat == "t" and (cond.count(0) < 2 or cond.count(1) < 2 or len(set(resp)) < 3):
-            stat = "mean"
+        if stat == "t" and (cond.count(0) < 2 or cond.count(1) < 2 or len(set(resp)) < 3) and rng.random() < 0.6:
+            stat = "mean"          # (otherwise: binary / constant responses, separated groups — infinite or NaN t statistics, compared in extended reals)
+        elif stat == "t" and rng.random() < 0.4:
+            resp = [float(c_) for c_ in cond] if rng.random() < 0.5 else small_values(rng, n, "binary")     # perfectly separated / binary data
         if stat == "mean_within_strata":
             ok = len(set(group)) >= 2 and all(set(c for g2, c in zip(group, cond) if g2 == g) == {0, 1} for g in set(group))
             if not ok:
@@ -899,7 +961,8 @@ class StratTwoSample(Fn):
         if p["stat"] == "t":
             nt = sum(1 for c2 in p["cond"] if c2 == p["cond"][o[0]])
             if t_degenerate([(a[:nt], a[nt:]) for a in margs + [list(obs_args)]]):
-                return ["SKIP-nonfinite"]
+                return probs + t_ext_compare(res, [(a[:nt], a[nt:]) for a in margs], (list(obs_args)[:nt], list(obs_args)[nt:]), p["alt"], c, reps,
+                                             obs_same=[tuple(a) == tuple(obs_args) for a in margs]) + ["DEGENERATE-T"]
             key = lambda t: (1 if t >= 0 else -1) * float(t) ** 2
             if not close(key(res["obs"]), mobs, rel=1e-7, ab=1e-9):
                 probs.append(f"observed t statistic: sign·t² = {key(res['obs'])} != {float(mobs)}")
@@ -1021,6 +1084,8 @@ def compare_recorded(ctx, ops, meta, outs, block):
             SLACK = 0.0
         if "SKIP-nonfinite" in probs:
             ctx.count("skipped-nonfinite-statistic"); continue
+        if "DEGENERATE-T" in probs:
+            ctx.count("degenerate-t-in-extended-reals"); probs = [q for q in probs if q != "DEGENERATE-T"]
         if probs:
             agree = False
             d2 = dict(det); d2.update({"issue": probs[0], "all_issues": probs[:5], "model": o[:600], "returned": str(ret)[:400]})
